@@ -583,7 +583,16 @@ func TestC03(t *testing.T) {
 				}
 			}
 		}
+		// every truncation of messages up to 4 KiB; of longer ones the first 2 KiB, the last
+		// 64 bytes and every step-th length in between (the cost is quadratic otherwise)
+		step := 1
+		if len(wire) > 4096 {
+			step = len(wire) / 2048
+		}
 		for tr := 0; tr < len(wire); tr++ {
+			if step > 1 && tr > 2048 && tr < len(wire)-64 && tr%step != 0 {
+				continue
+			}
 			if !offer(c, ctx, wire[:tr], "truncation") {
 				return
 			}
